@@ -448,7 +448,7 @@ pub struct IBatch {
 	pub clone_at: u16,
 }
 
-fn run_ibatch(c: &IBatch, st: &mut Stats) -> CaseResult {
+pub fn run_ibatch(c: &IBatch, st: &mut Stats) -> CaseResult {
 	let cfg = cfggen::instantiate(&c.cfg).map_err(|e| Failure::new("C09:generator", format!("{}: {e}", c.cfg.name)))?;
 	let name = c.cfg.name.as_str();
 	let cs: Vec<Candle> = c.s.cs.iter().map(|k| k.candle()).collect();
@@ -547,6 +547,7 @@ pub fn def(tier: Tier) -> PropertyDef {
 		});
 		checks.push(pt(&format!("indicator_{name}"), tier.pick(1200, 6000), strat, run_ibatch));
 	}
+	checks.extend(crate::fuzz_entry::corpus_checks("C09"));
 	PropertyDef {
 		id: "C09",
 		level: "exploration",
